@@ -260,6 +260,19 @@ def gen_e2e(rng, n, kinds=("line", "trafo")):
     cases = []
     for _ in range(n):
         spec = net.rand_feeder_spec(rng, max_lines=5, allow_mg=True)
+        if rng.random() < 0.5:
+            # reactive demand independent of the active one (purely reactive load points, purely active ones) and
+            # generation with active power only: load points that shed reactive energy without shedding active energy
+            for fd in spec["feeders"]:
+                nb = len(fd["parent"])
+                fd["qload"] = [str(rng.choice([F(0), F(1, 40), F(1, 20), F(1, 100)])) for _ in range(nb)]
+                if rng.random() < 0.4:
+                    k = rng.randrange(nb)
+                    fd["load"] = list(fd.get("load", ["1/20"] * nb)); fd["load"][k] = "0"
+                    if fd["qload"][k] == "0":
+                        fd["qload"][k] = "1/40"
+                if rng.random() < 0.5 and not fd.get("prod"):
+                    fd["prod"] = {str(rng.randrange(nb)): {"p": str(rng.choice([F(1, 20), F(1, 5), F(1)])), "q": "0"}}
         n_inc = rng.choice([8, 10, 12])
         dt = rng.choice([F(1), F(1, 2)])
         case = {"kind": "e2e", "spec": spec, "n_inc": n_inc, "dt": str(dt)}
